@@ -59,6 +59,12 @@ Section Generic.
     forall b x0 m trace, length b = n -> CG b x0 m <> Diverged trace.
   Proof. intros n Hl Hd. exact (cg_finite F _ _ _ _ _ _ _ _ Fth feqb fltb feqb_spec Hop tol n Hl Hd). Qed.
 
+  (* (3') the repaired code never divides by zero at all - any operator (not even linear), any right-hand side, start value, budget and
+     tolerance: beta divides by the previous squared residual norm, which was tested non-zero, and a vanishing curvature <p, H p>
+     (indefinite operator, or underflow past convergence) returns the current solution instead of 0/0 *)
+  Theorem C06_never_diverges : forall b x0 m trace, CG b x0 m <> Diverged trace.
+  Proof. exact (cg_never_diverges F _ _ _ _ _ _ feqb fltb feqb_spec Hop tol). Qed.
+
   (* (4) zero residual is a fixed point: starting at an exact solution returns it untouched without any iteration,
      and a loop state with zero residual returns its solution for every remaining budget *)
   Theorem C06_fixed_point_start : forall b x0 n, Hop x0 = b -> RUN b (Some x0) n = (Some x0, []).
@@ -152,12 +158,13 @@ Section Generic.
     destruct (RUN b x0 m) as [[y|] h] eqn:Er; [|cbn in Hfin; congruence]. exists y, h. split; [reflexivity|].
     assert (Hr0 : length (R0 b x0) = n).
     { unfold cg_init. cbn [sr]. rewrite length_vsub, Hl, Hb. apply Nat.max_id. }
-    exact (cg_exact_within_n F _ _ _ _ _ _ _ _ Fth feqb fltb feqb_spec Hop Ha Hsc tol n Hl Hs _ (R0 b x0) Hr0 b x0 m y h Ht Hnm Hb eq_refl Er).
+    exact (cg_exact_within_n F _ _ _ _ _ _ _ _ Fth feqb fltb feqb_spec Hop Ha Hsc tol n Hl Hdef Hs _ (R0 b x0) Hr0 b x0 m y h Ht Hnm Hb eq_refl Er).
   Qed.
 End Generic.
 Print Assumptions C06_residual.
 Print Assumptions C06_iteration_numbers.
 Print Assumptions C06_finite.
+Print Assumptions C06_never_diverges.
 Print Assumptions C06_fixed_point_start.
 Print Assumptions C06_fixed_point_loop.
 Print Assumptions C06_conjugate.
@@ -256,9 +263,9 @@ Example C06_example_2x2 :
   cgQ_run [[4#1;1#1];[1#1;3#1]] (0#1) [1#1;2#1] (Some [0#1;0#1]) 5
   = (0%nat, [(1,11);(7,11)]%Z, [([(1,4);(1,2)], [(-1,2);(1,4)], 0%nat); ([(1,11);(7,11)], [(0,1);(0,1)], 1%nat)]%Z).
 Proof. vm_compute. reflexivity. Qed.
-(* an indefinite H with <p,Hp> = 0: the explicit division by zero *)
-Example C06_example_indefinite_diverges :
-  cgQ_run [[0#1;1#1];[1#1;0#1]] (0#1) [1#1;0#1] (Some [0#1;0#1]) 5 = (1%nat, [], []).
+(* an indefinite H with <p,Hp> = 0: the repaired code returns the start value (before the repair: 0/0, outcome 1 = non-finite) *)
+Example C06_example_indefinite_stops :
+  cgQ_run [[0#1;1#1];[1#1;0#1]] (0#1) [1#1;0#1] (Some [0#1;0#1]) 5 = (0%nat, [(0,1);(0,1)]%Z, []).
 Proof. vm_compute. reflexivity. Qed.
 (* shape mismatch = ValueError *)
 Example C06_example_shape : cgQ_run [[1#1]] (0#1) [1#1] (Some [0#1;0#1]) 5 = (2%nat, [], []).
